@@ -103,7 +103,41 @@ def nontrivial(case, obs):
 # each other, a collector opened inside a [...] segment: '[(a)]', '(][max(())]', '[max()\\])') ended in
 # NotImplementedError; both are repaired in the parser.  Their witnesses stay in the corpus below and a stream of
 # tangled texts is part of every run (tangle_cases).
-FINDING_PREDS = {}
+def unsplittable_keyword_parameters(path, depth=0):
+    """the path (or a collector expression / search attribute inside it) parses to a keyword segment whose
+    parameter text SearchKeywordTerms.parameters cannot split (unbalanced quotes: ValueError)"""
+    E = ec._ENV
+    if depth > 6:
+        return False
+    try:
+        segs = list(E["YAMLPath"](path)._parse_path(True))
+    except Exception:  # noqa
+        return False
+    for (_t, a) in segs:
+        if isinstance(a, E["SearchKeywordTerms"]):
+            try:
+                E["SearchKeywordTerms"](a.inverted, a.keyword, a._parameters).parameters
+            except ValueError:
+                return True
+            except Exception:  # noqa
+                pass
+        if isinstance(a, E["CollectorTerms"]) and unsplittable_keyword_parameters(a.expression, depth + 1):
+            return True
+        if isinstance(a, E["SearchTerms"]) and unsplittable_keyword_parameters(a.attribute, depth + 1):
+            return True
+    return False
+
+
+def f31_keyword_parameters(case, obs):
+    """F31: every crash of the case is the ValueError of SearchKeywordTerms.parameters on a parameter text with
+    unbalanced quotes that the parser let through ('[max(\\')]': the escaped parse strips the back-slash and the
+    stored text is a lone quote)"""
+    vs = list(violations(case, obs))
+    return bool(vs) and all(line == "(raise (crash ValueError))" and unsplittable_keyword_parameters(path)
+                            for path, _mode, line in vs)
+
+
+FINDING_PREDS = {"keyword_parameters_unbalanced": f31_keyword_parameters}
 
 TANGLE_TOKENS = ["(", ")", "[", "]", "'", "\\", "a", "b", "=", "max", "&", ".", "~", "/", "+", "!", "0", ":", "*"]
 
@@ -127,6 +161,7 @@ def corpus_chunks():
     yield [("{a: 1, b: 2}", ["(a)b", "(a)'b'", "a.(b)c"]), ("{a: 1, b: 2}", ["[(a)]", "(][max(())]", "a[(b)]"]),
            ("{a: 1, b: 2}", ["[a=(b)]", "[a='(b)']", "[a='(b)'=c]", "[a=[b(c)]=d]", "[a=[(c)]=d]", "[max()\\])", "[max(])",
                              "[()]", "[[(a)]]", "'a(b)'", "'[(a)]'", "(a[(b)])", "[max('a)]]"]),
+           ("{a: 1, b: 2}", ["[max(\\')]", "[has_child(\\\")]", "[!min(a\\')]"]),      # F31 (known)
            # keyword segments: the repaired defects and the seeded one
            ("x: {a: 1}", ["x[has_child(,)]", "x[!has_child(,)]"]), ("x: [[{a: 1}]]", ["x[0:1][0:1][0][max(a)]"]),
            ("x: {a: 1, b: 2}", ["x.*[parent()]", "x.**[parent()]", "x.*[parent(2)]"]),
